@@ -13,21 +13,51 @@ import (
 
 func init() { register("C28", "other", c28) }
 
-// boolCallFact: a dominating fact at b states that a call to `callee` (qualified name)
-// returned `want`; returns those calls.
-func boolCallFacts(b *ssa.BasicBlock, callee string, want bool) []*ssa.Call {
-	var out []*ssa.Call
+// CallFact is a dominating fact "call returned Taken"; Args are the call's arguments as the
+// block's function sees them (bound through the helper's parameters when the fact was
+// imported from a guard helper).
+type CallFact struct {
+	Call  *ssa.Call
+	Args  []ssa.Value
+	Taken bool
+}
+
+// callFacts lists the call-valued facts at b (negations folded, helper bindings resolved).
+func callFacts(b *ssa.BasicBlock) []CallFact {
+	var out []CallFact
 	for _, f := range core.FactsAt(b) {
-		v, taken := f.Cond, f.Taken
+		v, taken := core.NormCond(f.Cond, f.Taken)
+		inner, bind := core.Unbind(v)
 		for {
-			if u, ok := v.(*ssa.UnOp); ok && u.Op == token.NOT {
-				v, taken = u.X, !taken
+			if u, ok := inner.(*ssa.UnOp); ok && u.Op == token.NOT {
+				inner, taken = u.X, !taken
 				continue
 			}
 			break
 		}
-		if c, ok := v.(*ssa.Call); ok && taken == want && core.CalleeName(c.Common()) == callee {
-			out = append(out, c)
+		c, ok := inner.(*ssa.Call)
+		if !ok {
+			continue
+		}
+		cf := CallFact{Call: c, Taken: taken}
+		for _, a := range c.Call.Args {
+			if bind != nil {
+				a = core.BindValue(a, bind)
+			}
+			cf.Args = append(cf.Args, a)
+		}
+		out = append(out, cf)
+	}
+	return out
+}
+
+// boolCallFacts: the dominating facts at b stating that a call to `callee` (qualified name)
+// returned `want`.
+func boolCallFacts(b *ssa.BasicBlock, callee string, want bool) []CallFact {
+	var out []CallFact
+	for _, cf := range callFacts(b) {
+		if cf.Taken == want && core.CalleeName(cf.Call.Common()) == callee {
+			out = append(out, cf)
 		}
 	}
 	return out
@@ -207,7 +237,7 @@ func c28(r *core.Report, p *core.Prog, thorough bool) {
 		// (b) declared state hash and (e) final root
 		okDecl, okRoot := false, false
 		for _, eq := range boolCallFacts(blk, "bytes.Equal", true) {
-			a0, a1 := eq.Call.Args[0], eq.Call.Args[1]
+			a0, a1 := eq.Args[0], eq.Args[1]
 			for k := 0; k < 2; k++ {
 				if c28Path(a0) == "b.ClientStateHash" {
 					if c28Path(a1) == "bsc.Hash" {
